@@ -47,6 +47,10 @@ class Check(PropertyCheck):
             if kind == "sop" and len(ms) == 1 and rng.random() < 0.6:
                 ms = ms + [max(ms) + 1]      # flexible: the machine assignment is a degree of freedom
             a = [ms, rng.randint(0, 9), rng.randint(0, 3), rng.randint(0, 3), rng.randint(0, 9)]
+            if rng.random() < 0.2:
+                # operations not attached to an instance (or of an instance built with set_operation_attributes=False):
+                # job id, position and operation id keep their default -1
+                a[2] = a[3] = a[4] = -1
             b = copy.deepcopy(a)
             field = "none"
             if not same:
